@@ -131,6 +131,18 @@ impl Uniq {
     }
 }
 
+impl Uniq {
+    /// boundary value: an optional parameter that is present and exactly zero (one in eight)
+    fn val0(&mut self, lo: f64, hi: f64) -> f64 {
+        let v = self.val(lo, hi);
+        if self.rng.below(8) == 0 {
+            0.0
+        } else {
+            v
+        }
+    }
+}
+
 fn pure_model_record(model: usize, u: &mut Uniq, k: usize) -> Value {
     match model {
         // PC-SAFT: optional polar / association / entropy scaling fields
@@ -140,14 +152,14 @@ fn pure_model_record(model: usize, u: &mut Uniq, k: usize) -> Value {
             m.insert("sigma".into(), json!(u.val(3.0, 4.0)));
             m.insert("epsilon_k".into(), json!(u.val(150.0, 300.0)));
             if k % 3 == 1 {
-                m.insert("mu".into(), json!(u.val(1.0, 2.5)));
+                m.insert("mu".into(), json!(u.val0(1.0, 2.5)));
             }
             if k % 4 == 2 {
-                m.insert("q".into(), json!(u.val(1.0, 4.0)));
+                m.insert("q".into(), json!(u.val0(1.0, 4.0)));
             }
             if k % 2 == 0 {
-                m.insert("kappa_ab".into(), json!(u.val(0.01, 0.06)));
-                m.insert("epsilon_k_ab".into(), json!(u.val(1500.0, 2800.0)));
+                m.insert("kappa_ab".into(), json!(u.val0(0.01, 0.06)));
+                m.insert("epsilon_k_ab".into(), json!(u.val0(1500.0, 2800.0)));
                 m.insert("na".into(), json!(1.0));
                 m.insert("nb".into(), json!(1.0 + (k % 4 / 2) as f64));
             }
@@ -171,7 +183,7 @@ fn pure_model_record(model: usize, u: &mut Uniq, k: usize) -> Value {
         3 => {
             if k % 2 == 1 {
                 json!({"m": u.val(1.0, 3.0), "sigma": u.val(3.0, 4.0), "epsilon_k": u.val(150.0, 300.0),
-                       "kappa_ab": u.val(0.01, 0.06), "epsilon_k_ab": u.val(1500.0, 2800.0), "na": 1.0, "nb": 1.0})
+                       "kappa_ab": u.val0(0.01, 0.06), "epsilon_k_ab": u.val0(1500.0, 2800.0), "na": 1.0, "nb": 1.0})
             } else {
                 json!({"m": u.val(1.0, 3.0), "sigma": u.val(3.0, 4.0), "epsilon_k": u.val(150.0, 300.0)})
             }
@@ -193,16 +205,16 @@ fn binary_model_record(model: usize, u: &mut Uniq, k: usize) -> Value {
     match model {
         0 => {
             if k % 3 == 0 {
-                json!({"k_ij": u.val(-0.05, 0.1), "kappa_ab": u.val(0.01, 0.05), "epsilon_k_ab": u.val(1500.0, 2500.0)})
+                json!({"k_ij": u.val0(-0.05, 0.1), "kappa_ab": u.val0(0.01, 0.05), "epsilon_k_ab": u.val0(1500.0, 2500.0)})
             } else if k % 3 == 1 && k % 2 == 0 {
                 // association override only (k_ij absent = 0)
-                json!({"kappa_ab": u.val(0.01, 0.05), "epsilon_k_ab": u.val(1500.0, 2500.0)})
+                json!({"kappa_ab": u.val0(0.01, 0.05), "epsilon_k_ab": u.val0(1500.0, 2500.0)})
             } else {
                 json!({"k_ij": u.val(-0.05, 0.1)})
             }
         }
-        1 => json!({"k_ij": u.val(-0.05, 0.1), "gamma_ij": u.val(0.9, 1.1)}),
-        2 => json!({"k_ij": u.val(-0.05, 0.1), "l_ij": u.val(-0.05, 0.05)}),
+        1 => json!({"k_ij": u.val0(-0.05, 0.1), "gamma_ij": u.val(0.9, 1.1)}),
+        2 => json!({"k_ij": u.val0(-0.05, 0.1), "l_ij": u.val0(-0.05, 0.05)}),
         3 => json!({"k_ij": [u.val(-0.05, 0.1), u.val(-1e-4, 1e-4)]}),
         4 | 5 => json!({"k_ij": u.val(-0.05, 0.1)}),
         6 | 7 => Value::Null,
@@ -817,6 +829,23 @@ where
                                 if !(d <= 1e-12) {
                                     out.violate("round-trip-behaviour", "roundtrip", format!("{}: behaviour changed by the round trip: {b1:?} vs {b2:?} ({text})", what("serde")));
                                 }
+                            }
+                        }
+                    }
+                }
+                // the records in the context of a mixture: what a parameter means can depend on its partners
+                // (cross-association, combining rules), so the re-read records must also build the same mixture
+                if subs.len() >= 2 {
+                    let recs: Vec<PureRecord<P::Pure>> = subs.iter().filter_map(|&k| serde_json::from_value(env.uni.pure[k].clone()).ok()).collect();
+                    let again: Vec<PureRecord<P::Pure>> = recs.iter().filter_map(|r| serde_json::from_str(&serde_json::to_string(r).unwrap()).ok()).collect();
+                    if recs.len() == subs.len() && again.len() == subs.len() {
+                        out.count("op.round_trip_mixture", 1);
+                        if let (Ok(p1), Ok(p2)) = (P::from_records(recs, None), P::from_records(again, None)) {
+                            let (b1, b2) = (p1.behave(), p2.behave());
+                            let d = same(&b1, &b2, 0.0);
+                            out.max("round_trip_dev", d);
+                            if !(d <= 1e-12) {
+                                out.violate("round-trip-behaviour", "roundtrip", format!("{}: behaviour of the mixture {subs:?} changed by the round trip of its pure records: {b1:?} vs {b2:?}", what("serde")));
                             }
                         }
                     }
